@@ -55,7 +55,28 @@ func newAcc() *acc {
 	return &acc{seen: map[uint64]struct{}{}, vio: map[string]string{}, vioN: map[string]int{}, counters: map[string]int{}}
 }
 
+// keyAlias reports a cause that is observed through an enclosing codec (a handshake message inside
+// Handshake, Handshake inside a record) or through a secondary symptom under the key of the codec that
+// owns the cause, so that one defect has one key.
+var keyAlias = map[string]string{
+	"reencode-fails:RecordLayer:unable-to-marshal-fragmented-handshakes":                   "reencode-fails:Handshake:unable-to-marshal-fragmented-handshakes",
+	"reencode-fails:PlaintextRecord13:unable-to-marshal-fragmented-handshakes":             "reencode-fails:Handshake:unable-to-marshal-fragmented-handshakes",
+	"reencode-fails:Handshake:invalid-signature-hash-algorithm":                            "reencode-fails:MessageServerKeyExchange:invalid-signature-hash-algorithm",
+	"overread:Handshake/ecdhe:handshake_body/public":                                       "overread:MessageClientKeyExchange/ecdhe:public",
+	"overread:Handshake/ecdhe-psk:handshake_body/public":                                   "overread:MessageClientKeyExchange/ecdhe-psk:public",
+	"reencode-fails:MessageClientKeyExchange:public-key-must-not-be-longer-than-255-bytes": "overread:MessageClientKeyExchange/ecdhe:public",
+	"reencode-fails:Handshake:public-key-must-not-be-longer-than-255-bytes":                "overread:MessageClientKeyExchange/ecdhe:public",
+	"fixedpoint:MessageServerKeyExchange/ecdhe-psk:canonical-form-rejected":                "fixedpoint:MessageServerKeyExchange/ecdhe:canonical-form-rejected",
+	"panic:Handshake.Unmarshal:ecdhe-psk-ClientKeyExchange":                                "panic:MessageClientKeyExchange.Unmarshal:ecdhe-psk-short",
+	"overread:MessageClientKeyExchange/ecdhe-psk:public":                                   "overread:MessageClientKeyExchange/ecdhe:public",
+	"truncated-accepted:RecordLayer:record_fragment":                                       "length:RecordLayer.Unmarshal:content-len-ignored",
+	"overread:RecordLayer:record_fragment":                                                 "length:RecordLayer.Unmarshal:content-len-ignored",
+}
+
 func (a *acc) fail(key, text string) {
+	if al, ok := keyAlias[key]; ok {
+		key = al
+	}
 	if _, ok := a.vio[key]; !ok {
 		if len(text) > 700 {
 			text = text[:700] + "..."
@@ -163,7 +184,11 @@ func (a *acc) checkValue(c *codec, val value) []byte {
 		return nil
 	}
 	if err != nil {
-		a.counters["values_not_encodable"]++
+		if val.must {
+			a.fail("encode-refuses:"+c.label(), fmt.Sprintf("%s: Marshal refuses a value of the message grammar: %v; v=%s", c.label(), err, trunc(dump(val.v), 300)))
+		} else {
+			a.counters["values_not_encodable"]++
+		}
 		return nil
 	}
 	want := dump(val.v) // after Marshal: some Marshal methods fill in derived header fields
@@ -184,6 +209,11 @@ func (a *acc) checkValue(c *codec, val value) []byte {
 	}
 	a.counters["values_round_tripped"]++
 	if got := dump(d); got != want {
+		if !val.must {
+			// outside the documented domain: the decoder is free to read it differently
+			a.counters["values_outside_decoder_domain"]++
+			return e
+		}
 		a.fail("roundtrip:"+c.label()+":value-changed",
 			fmt.Sprintf("%s: Unmarshal(Marshal(v)) != v: v=%s got=%s wire=%s", c.label(), want, got, hx(e)))
 	}
@@ -192,7 +222,7 @@ func (a *acc) checkValue(c *codec, val value) []byte {
 	case pan != "":
 		a.fail(c.panicKey("Marshal", nil), fmt.Sprintf("%s: Marshal panicked (%s) on decoded %s", c.label(), pan, hx(e)))
 	case err != nil:
-		a.fail("reencode-fails:"+c.label(), fmt.Sprintf("%s: Marshal(Unmarshal(Marshal(v))) failed: %v; wire=%s", c.label(), err, hx(e)))
+		a.fail("reencode-fails:"+c.name+":"+slug(err.Error()), fmt.Sprintf("%s: Marshal(Unmarshal(Marshal(v))) failed: %v; wire=%s", c.label(), err, hx(e)))
 	case !bytes.Equal(e, e2):
 		a.fail("roundtrip:"+c.label()+":marshal-not-fixed-point",
 			fmt.Sprintf("%s: Marshal(Unmarshal(e)) != e for e=Marshal(v): e=%s e'=%s", c.label(), hx(e), hx(e2)))
@@ -201,6 +231,25 @@ func (a *acc) checkValue(c *codec, val value) []byte {
 		a.sample = map[string]any{"codec": c.label(), "value": trunc(want, 300), "wire": hx(e)}
 	}
 	return e
+}
+
+// slug turns an error text into a key fragment.
+func slug(s string) string {
+	var sb strings.Builder
+	dash := false
+	for _, r := range strings.ToLower(s) {
+		if (r >= 'a' && r <= 'z') || (r >= '0' && r <= '9') {
+			sb.WriteRune(r)
+			dash = false
+		} else if !dash && sb.Len() > 0 {
+			sb.WriteByte('-')
+			dash = true
+		}
+		if sb.Len() > 48 {
+			break
+		}
+	}
+	return strings.TrimSuffix(sb.String(), "-")
 }
 
 func trunc(s string, n int) string {
@@ -230,7 +279,7 @@ func (a *acc) checkBytes(c *codec, x []byte, how string) []byte {
 		return nil
 	}
 	if err != nil {
-		a.fail("reencode-fails:"+c.label(), fmt.Sprintf("%s: accepted input %s (%s) decodes to %s which Marshal refuses: %v", c.label(), hx(x), how, trunc(dump(v), 200), err))
+		a.fail("reencode-fails:"+c.name+":"+slug(err.Error()), fmt.Sprintf("%s: accepted input %s (%s) decodes to %s which Marshal refuses: %v", c.label(), hx(x), how, trunc(dump(v), 200), err))
 		return nil
 	}
 	r = bytes.Clone(r)
